@@ -31,7 +31,7 @@ ENTER = "tracing::span::Span::enter"
 LEVELS = {"TRACE": 0, "DEBUG": 1, "INFO": 2, "WARN": 3, "ERROR": 4}
 LE = "<tracing_core::metadata::Level as core::cmp::PartialOrd<tracing_core::metadata::LevelFilter>>::le"
 INSTRUMENT = "tracing::instrument::Instrument::instrument"
-FLOOR_FNS = 220
+FLOOR_FNS = 230
 
 
 def load_expect(F):
